@@ -380,7 +380,7 @@ impl SvgElement {
 
         let mut p = Position::from(self as &SvgElement);
         if self.name == "use" {
-            if let Some(href) = self.get_attr("href") {
+            if let Some(href) = self.get_attr("href").or_else(|| self.get_attr("xlink:href")) {
                 let elref = href.parse()?;
                 let el = ctx
                     .get_element(&elref)
@@ -704,8 +704,10 @@ impl SvgElement {
         let mut element = self;
 
         while element.name == "use" || element.name == "reuse" {
+            // SVG 1.1 spells the reference attribute `xlink:href`
             let href = element
                 .get_attr("href")
+                .or_else(|| element.get_attr("xlink:href"))
                 .ok_or_else(|| SvgdxError::MissingAttribute("href".to_owned()))?;
             let elref = href.parse()?;
             if let Some(el) = ctx.get_element(&elref) {
